@@ -39,6 +39,7 @@ func (c *Ctx) isNew(fn *ssa.Function) bool {
 // code of their caller, and hold whether or not the helper exists as a function.
 var transparentKnown = map[string]bool{
 	"(*Parser).splitShortConcatArg": true,
+	"(*Arg).isRemaining":            true,
 }
 
 // inlineSite returns the unique static call site of a new function (nil if it
